@@ -9,6 +9,7 @@ package main
 // and the runtime's second symboliser (FuncForPC / FileLine).
 
 import (
+	"math"
 	"bytes"
 	"context"
 	"encoding/json"
@@ -236,10 +237,11 @@ func genC05(r *Rng, tier string) []Case {
 			case 0, 1, 2, 3:
 				os = append(os, c05Opt{T: "skip", A: r.Intn(5) - 1})
 				if r.Chance(1, 14) {
-					os[len(os)-1].A = 1000 // more than any call depth: a stack object without frames
+					// more than any call depth: a stack object without frames (the sum must not wrap around)
+					os[len(os)-1].A = Pick(r, []int{1000, 1000, math.MaxInt, math.MaxInt - 2})
 				}
 			case 4, 5, 6:
-				os = append(os, c05Opt{T: "depth", A: Pick(r, []int{-1, 0, 1, 2, 3, 31, 32, 33, 40})})
+				os = append(os, c05Opt{T: "depth", A: Pick(r, []int{-1, 0, 1, 2, 3, 31, 32, 33, 40, 40, math.MaxInt, 1 << 40})})
 			case 7:
 				if r.Chance(1, 3) {
 					os = append(os, c05Opt{T: "notrace"})
